@@ -22,12 +22,14 @@ import (
 	"io"
 	"os"
 	"os/exec"
+	"reflect"
 	"runtime"
 	"strconv"
 	"strings"
 	"sync"
 	"syscall"
 
+	"verif/envio"
 	"verif/mc"
 	"verif/obs"
 
@@ -337,6 +339,121 @@ func c05ChildMain(arg string) (code int) {
 	return 0
 }
 
+// ---- calls that leave a pool holding one object twice ----
+//
+// Two concurrent Gets can only return the same object if some pool holds it twice (the shim's pools hand out
+// what was Put, or New).  Every input of C04's victim list (every seed, cut and single-field malformation
+// through every entry point, the JPEG marker structures, the degenerate records) is run alone; where a pool
+// afterwards holds an object twice, Decode(TIFF) || Decode(JPEG) is run under every schedule with one
+// preemption, and each result must equal its sequential result.  The duplicate is only the reason to look:
+// the oracle is the result of the concurrent calls.
+
+func c05PoolDuplicates() (int, string) {
+	n, where := 0, ""
+	for _, p := range vsync.Pools() {
+		seen := map[uintptr]bool{}
+		for _, it := range p.Items() {
+			v := reflect.ValueOf(it)
+			switch v.Kind() {
+			case reflect.Ptr, reflect.Map, reflect.Slice, reflect.Chan, reflect.UnsafePointer:
+				ptr := v.Pointer()
+				if seen[ptr] {
+					n++
+					where = fmt.Sprintf("pool #%d holds one %T twice", p.ID(), it)
+				}
+				seen[ptr] = true
+			}
+		}
+	}
+	return n, where
+}
+
+var c05H11Victims []c04Victim
+
+func c05AfterDuplicates(x *mc.Exec) {
+	runtime.GOMAXPROCS(1)
+	if c05H11Victims == nil {
+		c05H11Victims = c04Victims("quick")
+	}
+	vs := c05H11Victims
+	const chunk = 512
+	ch := x.All("victim-chunk", (len(vs)+chunk-1)/chunk)
+	by := map[string][]byte{}
+	for _, s := range seeds() {
+		by[s.name] = s.doc.B
+	}
+	calls := []c05Call{decodeCall("tiff-rich-II", by["tiff-rich-II"], 1200), decodeCall("jpeg-rich-II", by["jpeg-rich-II"], 1200)}
+	var golden []string
+	n, dups := 0, 0
+	for i := ch * chunk; i < (ch+1)*chunk && i < len(vs); i++ {
+		v := vs[i]
+		prelude := func() {
+			pristine()
+			defaultLogger()
+			if v.run != nil {
+				mc.Guard(func() { v.run() })
+			} else {
+				runEntry(&entryPoints[v.entry], envio.New(v.data), false)
+			}
+		}
+		prelude()
+		n++
+		d, where := c05PoolDuplicates()
+		if d == 0 {
+			continue
+		}
+		dups++
+		if golden == nil {
+			for _, c := range calls {
+				pristine()
+				defaultLogger()
+				golden = append(golden, c.run())
+			}
+		}
+		name := "the call"
+		if v.run == nil {
+			name = entryPoints[v.entry].name
+		}
+		points := 1
+		for k := 0; k < points && k < 4000; k++ {
+			prelude()
+			results := make([]string, 2)
+			bodies := []func(){func() { results[0] = calls[0].run() }, func() { results[1] = calls[1].run() }}
+			cnt := 0
+			decide := func(kind string, nn int, curEnabled bool, detail string) int {
+				if kind != "sched" {
+					return 0
+				}
+				cnt++
+				if cnt-1 == k && nn > 1 {
+					return 1
+				}
+				return 0
+			}
+			res := vsync.Run(bodies, decide)
+			if cnt > points {
+				points = cnt
+			}
+			bad := res.Deadlock
+			for w := 0; w < 2; w++ {
+				if res.Panics[w] != nil || results[w] != golden[w] {
+					bad = true
+				}
+			}
+			if bad {
+				x.Fail("concurrent-result-differs|H11-after-a-call-that-leaves-a-duplicate|"+name,
+					fmt.Sprintf("after %s on %s (%s): Decode(TIFF) || Decode(JPEG) with a switch at scheduling point %d returned %s / %s ; alone they return %s / %s",
+						name, v.what, where, k, truncStr(results[0], 200), truncStr(results[1], 200), truncStr(golden[0], 200), truncStr(golden[1], 200)),
+					map[string]string{"case": v.what, "pool": where, "input_hex": hexInput(v.data)})
+				break
+			}
+		}
+	}
+	x.Bulk = int64(n) - 1
+	x.InputID = hashBytes([]byte(fmt.Sprint("h11", ch)))
+	x.Outcome = fmt.Sprintf("dups%d", dups)
+}
+
 func c05FirstUse(x *mc.Exec) {
 	c05InitPairs()
 	v := x.All("entry-point", len(c05PairEntries))
@@ -619,6 +736,8 @@ func init() {
 			}
 			sp = append(sp, mc.Space{Name: "H10-first-calls-of-a-process", H: c05FirstUse, Bound: 1, Isolate: true, SplitDepth: 1,
 				Rule: "for each of 18 entry points E: E(A) || E(B) as the first two calls a fresh process makes (one child process per execution, scheduled by the parent's explorer; every schedule with <= 1 preemption or pool-answer deviation), the sequential reference computed in the same child afterwards: lazily built state must be built safely"})
+			sp = append(sp, mc.Space{Name: "H11-after-a-call-that-leaves-a-pool-holding-one-object-twice", H: c05AfterDuplicates, NoLevels: true, Isolate: true, SplitDepth: 1,
+				Rule: "every input of C04's victim list (every seed, cuts, single-field malformations, JPEG marker structures, degenerate records, re-entrant calls x entry points) run alone; whenever a pool afterwards holds one object twice: Decode(TIFF) || Decode(JPEG) under every schedule with one preemption, each result compared with its sequential result"})
 			if raceBin != "" {
 				sp = append(sp, mc.Space{Name: "H10-first-calls-of-a-process/race-detector", H: c05FirstUse, Bound: 0, Isolate: true, SplitDepth: 1, Binary: raceBin, Env: raceEnv,
 					Rule: "the same with the child built with -race: the detector judges the first calls of every fresh process (default schedule; its verdict on unsynchronised accesses does not depend on the schedule unless control flow does)"})
